@@ -10,6 +10,7 @@ import hashlib
 import json
 import os
 import re
+import sys
 
 import vlib
 
@@ -42,6 +43,16 @@ THEOREMS = [
     "Mpc.C09_pipeline_preserves",
     "Mpc.sol_unique",
     "Mpc.Graph.gwfCheck_sound",
+    # where the level model (Nat) meets the code (fixed-width Gate.Level): side condition, and the failure beyond it
+    "Mpc.wrapLv_id",
+    "Mpc.invChain_ssa",
+    "Mpc.invChain_strict",
+    "Mpc.wrapped_sort_not_wf",
+    "Mpc.wrapped_sort_wrong_output",
+    "Mpc.C09_levels_bounded",
+    "Mpc.C09_wrapped_levels_not_topological",
+    "Mpc.C09_wrapped_levels_wrong_output",
+    "Mpc.C09_computeArr_eq",
 ]
 
 
@@ -78,6 +89,19 @@ def facts(ctx):
     ctx.advise("Gate.Assign gives the output wire level Level+1 [decided by: oracle c09-compile-levels-not-strict on "
                "every compiled circuit, compile pass-model tie]",
                "g.O.Assign(cc, g.Level+1)" in gates, True)
+    m = re.search(r"type Gate struct \{(.*?)\n\}", vlib.strip_go_comments(gates), flags=re.S)
+    lt = re.search(r"\bLevel\s+(\w+)", m.group(1)) if m else None
+    ctx.advise("circuits.Gate.Level is declared `int` (model: unbounded Nat; the theorems transfer while no level reaches the "
+               "field's range, C09_levels_bounded; beyond it the sort is not topological, "
+               "C09_wrapped_levels_not_topological) [decided by: extreme-shape programs whose circuits are deeper than 2^16 / "
+               "2^17 levels - simulation oracle, `topo` ops (absRun on the real compiled circuit), level oracle "
+               "c09-compile-levels-not-strict]", lt.group(1) if lt else None, "int")
+    wire = vlib.repo_file("compiler/circuits/wire.go")
+    m = re.search(r"\bnumMask\s*=\s*0b([01]+)", wire)
+    ctx.advise("Wire fan-out counter: numMask has 29 one bits and SetNumOutputs panics above it (model: unbounded Nat) "
+               "[decided by: extreme-shape programs with a wire read by more than 2^16 / 2^17 gates - compile outcome, "
+               "prune pass-model ties, simulation oracle]",
+               [m.group(1).count("1") if m else None, 'panic("too big circuit, wire outputs overflow")' in wire], [29, True])
     nw = vlib.repo_file("gmw/network.go")
     m = re.search(r"for i := 0; i < numLevels; i\+\+ \{(.*?)\n\t\}\n", nw, flags=re.S)
     sched = m.group(1) if m else ""
@@ -140,6 +164,84 @@ def strip_chk(line):
     return re.sub(r"^chk=[^;]*;", "", line)
 
 
+def replay_exact(ctx):
+    """`bin/check C09 --replay F`: when F holds one concrete case (program source, two configurations, input
+    vector) run exactly that case on the real code first: both configurations compiled by the real compiler,
+    both circuits evaluated by Circuit.Compute on the recorded input.  The seeded run that regenerates the
+    case follows."""
+    if "--replay" not in sys.argv or not ctx.hx:
+        return
+    try:
+        rp = sys.argv[sys.argv.index("--replay") + 1]
+        rp = rp if os.path.isabs(rp) else os.path.join(vlib.VERIF, rp)
+        f = json.load(open(rp)).get("failure") or {}
+    except Exception:
+        return
+    if not (f.get("src") and f.get("config_b")):
+        return
+    rc, log = vlib.sh([ctx.hx, "replay", rp], env=vlib.GOENV, timeout=900)
+    print("replayed case of %s (%s, %s vs %s):\n%s" % (os.path.basename(rp), f.get("sig"), f.get("config_a"),
+                                                       f.get("config_b"), vlib.indent(log[-2500:])))
+    ctx.coverage["exact_replay"] = {"file": os.path.basename(rp), "sig": f.get("sig"), "reproduced": rc == 1}
+    if rc == 1:
+        g = dict(f)
+        g["found_by"] = "exact replay of " + os.path.basename(rp)
+        ctx.fails.append(g)
+
+
+XDIMS_QUICK = ["depth_gmw_ge_2^16", "depth_yao_ge_2^16", "width_ge_2^16", "fanout_ge_2^16", "wires_ge_2^16", "wires_ge_2^17"]
+XDIMS_THOROUGH = XDIMS_QUICK + ["depth_gmw_ge_2^17", "depth_yao_ge_2^17", "width_ge_2^17", "fanout_ge_2^17", "gates_ge_2^20"]
+
+
+def extreme(ctx, stats, tally):
+    """Extreme-shape programs (harness/cmd/c09/extreme.go): the boundaries of the program quantifier set by the
+    widths of the compiler's counters (gate levels, wires, gates per level, fan-out)."""
+    ops, out, meta = ctx.run_hx("extreme", 0, seed=ctx.seed)
+    ctx.absorb_meta(meta, prefix="x_")
+    ctx.correspond("extreme-shape programs (deeper than 2^16 levels, wider than 2^16 gates per level, fan-out above 2^16): "
+                   "topo (absRun on the real compiled circuits), pass models, checker pairs, level sorts incl. the "
+                   "16-bit-field sort, chain witnesses k=1..12: Lean model = real code", ops, out, canon=strip_chk)
+    tally(ops, out, meta, "x%d" % ctx.seed)
+    c = ctx.coverage.get("counters", {})
+    progs = meta.get("extreme") or []
+    ctx.coverage["extreme_programs"] = progs
+    ctx.coverage["extreme_max_compile_level"] = {"gmw": c.get("x_max_compile_level_gmw"), "yao": c.get("x_max_compile_level_yao")}
+    want = 4 if ctx.tier == "quick" else 15
+    ctx.oblige("extreme-shape generator: every class calibrated against the compiler under test and compiled under every "
+               "configuration (%d programs)" % c.get("x_extreme_programs", 0),
+               c.get("x_extreme_programs", 0) >= want and not c.get("x_extreme_class_not_calibrated") and
+               not c.get("x_compile_fail_extreme") and c.get("x_programs_extreme", 0) == c.get("x_extreme_programs", 0),
+               "programs=%s not_calibrated=%s compile_fail=%s ran=%s" % (
+                   c.get("x_extreme_programs"), c.get("x_extreme_class_not_calibrated"), c.get("x_compile_fail_extreme"),
+                   c.get("x_programs_extreme")))
+    dims = XDIMS_QUICK if ctx.tier == "quick" else XDIMS_THOROUGH
+    missing = [d for d in dims if not c.get("x_extreme_" + d)]
+    ctx.oblige("extreme-shape programs crossed every boundary (measured on the compiled circuits in unbounded arithmetic): %s"
+               % ", ".join(dims), not missing, "not reached: %s" % missing)
+    ctx.oblige("the proved checker absRun was run on real GMW-target circuits of extreme-shape programs (%d topo ops on GMW "
+               "circuits) and Compile's own levels were read back and checked strict / sorted (%d GMW, %d Yao circuits)"
+               % (c.get("x_topo_ops_gmw", 0), c.get("x_levels_checked_gmw", 0), c.get("x_levels_checked_yao", 0)),
+               c.get("x_topo_ops_gmw", 0) >= 4 and c.get("x_levels_checked_gmw", 0) >= 3, "")
+    ctx.oblige("chain witnesses of C09_wrapped_levels_not_topological / _wrong_output executed for k = 1..12 (Compile's "
+               "comparator under sort.SliceStable on a k-bit level field, Circuit.Compute; compiled Lean model): not "
+               "topological and wrong output every time",
+               c.get("x_chain_ops", 0) == 12 and c.get("x_chain_ops_not_topological_and_wrong", 0) == 12,
+               "chain_ops=%s wrong=%s" % (c.get("x_chain_ops"), c.get("x_chain_ops_not_topological_and_wrong")))
+    ctx.oblige("a 16-bit level field is predicted (Lean compileSortW 16 = Go replica) to break a real compiled program deeper "
+               "than 2^16 levels",
+               c.get("x_sort_ops_wrapped_beyond_field", 0) >= 1 and
+               c.get("x_sort_ops_wrapped_beyond_field_not_topological", 0) == c.get("x_sort_ops_wrapped_beyond_field", 0),
+               "beyond=%s not_topological=%s" % (c.get("x_sort_ops_wrapped_beyond_field"),
+                                                 c.get("x_sort_ops_wrapped_beyond_field_not_topological")))
+    if ctx.widen:
+        # widened search among extreme shapes: other seeds give other classes parameters
+        for s in range(ctx.seed + 9000, ctx.seed + 9003):
+            ops, out, meta = ctx.run_hx("extreme", 0, seed=s, tag="-widen")
+            ctx.absorb_meta(meta, prefix="xwiden_")
+            if ctx.fails:
+                break
+
+
 def run(ctx):
     ctx.prove("MpcVerif.Props.C09", THEOREMS)
     # operator level of the threshold / target axes: corollaries of the C07 exactness theorems, every width and value
@@ -156,23 +258,9 @@ def run(ctx):
     stats = {"pairs": 0, "validated": 0, "not_validated": 0, "corpus_pairs": 0, "corpus_validated": 0,
              "by_kind": {}, "not_validated_examples": []}
     if ctx.build_hx():
-        for k, s in enumerate(seeds):
-            extra = [] if k == 0 else ["-extra", "nocorpus"]
-            ops, out, meta = ctx.run_hx("equiv", n, seed=s, extra_args=extra)
-            ctx.absorb_meta(meta)
-            if meta.get("divider_probe_uint7"):
-                ctx.coverage["divider_probe_uint7"] = meta["divider_probe_uint7"]
-            if meta.get("negation_witness"):
-                # the two circuits of Mpc.C09_target_equivalence_fails are what the compiler produces today?
-                lean = open(os.path.join(vlib.LEAN, "MpcVerif/Props/C09.lean")).read()
-                baked = re.findall(r"line format: `([^`]*)`", lean)
-                nw = meta["negation_witness"]
-                ctx.coverage["negation_witness"] = {
-                    "program": nw.get("src"), "input": nw.get("x"), "compute_yao": nw.get("out_yao"),
-                    "compute_gmw": nw.get("out_gmw"),
-                    "lean_circuits_are_todays_compiler_output": baked == [nw.get("yao"), nw.get("gmw")]}
-            ctx.correspond("pass models (ConstPropagate/ShortCircuitXORZero/Prune/Compile) + Compute/AssignLevels/level sorts: Lean model = real code (seed %d)" % s, ops, out,
-                           canon=strip_chk)
+        replay_exact(ctx)
+
+        def tally(ops, out, meta, s):
             for tag, verdict, info in pair_results(ctx, ops, out, meta, s):
                 kind = tag.split("|")[-1]
                 bk = stats["by_kind"].setdefault(kind, [0, 0])
@@ -190,6 +278,26 @@ def run(ctx):
                     if len(stats["not_validated_examples"]) < 8:
                         stats["not_validated_examples"].append({"pair": tag, "verdict": verdict, "seed": s,
                                                                 "case": info.get("case"), "corpus": info.get("corpus")})
+
+        for k, s in enumerate(seeds):
+            extra = [] if k == 0 else ["-extra", "nocorpus"]
+            ops, out, meta = ctx.run_hx("equiv", n, seed=s, extra_args=extra)
+            ctx.absorb_meta(meta)
+            if meta.get("divider_probe_uint7"):
+                ctx.coverage["divider_probe_uint7"] = meta["divider_probe_uint7"]
+            if meta.get("negation_witness"):
+                # the two circuits of Mpc.C09_target_equivalence_fails are what the compiler produces today?
+                lean = open(os.path.join(vlib.LEAN, "MpcVerif/Props/C09.lean")).read()
+                baked = re.findall(r"line format: `([^`]*)`", lean)
+                nw = meta["negation_witness"]
+                ctx.coverage["negation_witness"] = {
+                    "program": nw.get("src"), "input": nw.get("x"), "compute_yao": nw.get("out_yao"),
+                    "compute_gmw": nw.get("out_gmw"),
+                    "lean_circuits_are_todays_compiler_output": baked == [nw.get("yao"), nw.get("gmw")]}
+            ctx.correspond("pass models (ConstPropagate/ShortCircuitXORZero/Prune/Compile) + Compute/AssignLevels/level sorts: Lean model = real code (seed %d)" % s, ops, out,
+                           canon=strip_chk)
+            tally(ops, out, meta, s)
+        extreme(ctx, stats, tally)
         c = ctx.coverage.get("counters", {})
         ctx.coverage["checker"] = stats
         ctx.coverage["programs"] = c.get("programs", 0)
@@ -213,12 +321,17 @@ def run(ctx):
         ctx.oblige("generator: >= 85%% of generated programs compile", c.get("programs_gen", 0) * 100 >=
                    85 * (c.get("programs_gen", 0) + c.get("compile_fail_gen", 0)) and c.get("programs_gen", 0) > 0,
                    "ok=%s fail=%s" % (c.get("programs_gen"), c.get("compile_fail_gen")))
+        ctx.oblige("the proved checker absRun was run on the real compiled circuit of every configuration of every program "
+                   "(%d `topo` ops, %d on GMW-target circuits; the harness's own verdict is compared with it)"
+                   % (c.get("topo_ops", 0), c.get("topo_ops_gmw", 0)),
+                   c.get("topo_ops", 0) >= c.get("programs", 0) > 0 and c.get("topo_ops_gmw", 0) > 0, "")
         npass = {k: c.get("pass_ops_" + k, 0) for k in ("cp", "sc", "prune", "compile-yao", "compile-gmw")}
         ctx.coverage["pass_model_ops"] = npass
         ctx.oblige("pass models (Model/Passes.lean) were run against the real ConstPropagate / ShortCircuitXORZero / "
                    "Prune / Compile on dumped builder graphs (%s)" % npass, all(v > 0 for v in npass.values()), str(npass))
         need = ["feat_rawdiv", "programs_with_divisor_probe", "feat_*", "feat_/", "feat_%", "feat_if", "feat_for", "feat_identity", "feat_dead", "feat_<<", "feat_>>",
-                "feat_cmp", "feat_cast", "programs_exhaustive", "programs_sampled", "pair_ops_raw-on", "pair_ops_off-on"]
+                "feat_cmp", "feat_cast", "programs_exhaustive", "programs_sampled", "pair_ops_raw-on", "pair_ops_off-on",
+                "programs_sweep"]
         missing = [k for k in need if not c.get(k)]
         ctx.oblige("generator reached every feature class", not missing, "missing: %s" % missing)
         if ctx.widen:
@@ -234,7 +347,16 @@ def run(ctx):
         "+ - * / % & | ^ &^, constant shifts, comparisons, && || !, if/else, for, typed constants, algebraic identities, "
         "dead code, mixed argument widths; divisors are forced non-zero (d|1) except in the rawdiv flavour, which "
         "comes with a divisor probe); per program 12 real compilations {prune off,on} x {thr 0,8,9,21,64 | GMW} "
-        "+ 8 staged compilations; distinct = distinct checker pair op lines whose two circuits differ in size")
+        "+ 8 staged compilations; distinct = distinct checker pair op lines whose two circuits differ in size; "
+        "multiplier width sweep (6 per run, thorough 16: a*b, a*b+a and the full double-width product at seeded widths 9..72, two "
+        "thirds odd - the Karatsuba split is uneven for odd widths - under every threshold and both targets); "
+        "EXTREME-SHAPE programs (seeded, calibrated against the compiler under test, dimensions measured on the compiled "
+        "circuit): DEEP (dependent permutation chains on 1..3-bit values, compare-and-update loops on 16..64-bit values, one "
+        "comparison of two ~22000-bit values: more than 2^16 levels under both targets; thorough: 2^17, ripple arithmetic on "
+        "wide values, multiplication chains), WIDE / FAN-OUT (one select bit steering a ~67000-bit value; thorough: GMW "
+        "divider before pruning, arrays): compiled for {Yao, GMW} x {prune off, on} (+ 2 thresholds when multiplying), "
+        "simulated on corner, CORRELATED (arguments equal above a per-lane cut, so that carry chains are exercised) and "
+        "random vectors, exhaustive when <= 16 input bits")
     ctx.assumptions += [
         "Lean code generation is trusted for running the proved checker natively (drv_c09)",
         "the circuits handed to the checker are the compiler's outputs rendered by hxlib.CircLine; the Lean evaluation "
@@ -244,8 +366,15 @@ def run(ctx):
         "an output wire that no gate drives reads as 0 (Compute: make([]byte, NumWires)); modelled so in Lean "
         "(initStore) and in the checker (outAbs)",
         "circuits larger than the tier's size limits are skipped (counted in coverage.counters)",
-        "pass models (Model/Passes.lean): wire fan-out counters are unbounded naturals (Go: 29 bits, panics above); "
-        "builder graphs above 12000 gates are not dumped for the pass-model tie",
+        "pass models (Model/Passes.lean): wire fan-out counters are unbounded naturals (Go: 29 bits, panics above; the extreme-shape "
+        "class reaches fan-outs above 2^16 (thorough: above 2^17, about 5*10^5 in the GMW divider before pruning), 2^29 is out of reach: such a builder graph needs > 20 GB); "
+        "builder graphs above 12000 gates (extreme-shape programs: 150000) are not dumped for the pass-model tie",
+        "gate levels: the models count in Nat, circuits.Gate.Level is a Go int (64 bits; advisory fact); the theorems transfer "
+        "under the no-overflow side condition of C09_levels_bounded (every level below 2^k for a k-bit field), which the level "
+        "oracle checks on the levels read back from the real compiler (coverage.extreme_max_compile_level, above 2^16 in every "
+        "run); circuits deeper than 2^63 levels do not exist",
+        "extreme-shape programs with more than 4096 input bits get no checker pair / pass-model ops in the quick tier (Lean "
+        "driver time); their real compiled circuits are still checked by absRun (`topo` ops) and simulated",
         "Compile: the breadth-first numbering is validated per run by the model function compileChecked "
         "(C09_compile_preserves_partial), not proved complete/injective in general",
     ]
@@ -263,7 +392,13 @@ def run(ctx):
         "every program and target, raw (no pass) -> ConstPropagate -> +ShortCircuitXORZero (= prune off) -> +Prune "
         "(= prune on), and prune off -> on for each multiplier threshold; a validated pair is equivalent for ALL inputs. "
         "C09_levels / C09_gmw_schedule: Compile's (level, AND-first) sort and the GMW (AND-depth, non-AND-first) schedule "
-        "are topological reorderings and leave evaluation unchanged. Oracle: every configuration simulated against the "
+        "are topological reorderings and leave evaluation unchanged; C09_levels_bounded: the same for the levels a k-bit "
+        "field stores while no level reaches 2^k; C09_wrapped_levels_not_topological / _wrong_output: beyond that bound the "
+        "sorted circuit is not topologically ordered and computes a wrong value (chain of 2^k+1 gates, every k >= 1; executed "
+        "for k = 1..12 and, with k = 16, on a real compiled program deeper than 2^16 levels). Every real compiled circuit, "
+        "including those of the extreme-shape programs (deeper than 2^16 levels, wider than 2^16 gates, fan-out above 2^16), "
+        "is checked single-assignment and topologically ordered by the proved checker absRun (`topo` ops) and by the harness. "
+        "Oracle: every configuration simulated against the "
         "base configuration (Yao, no prune, default threshold). Known finding (narrow): a division by ZERO gives "
         "different values under the two targets (Lean witness on uint2 a/0), matched only when the divisor probe shows a "
         "zero divisor on every differing input. Three GMW-divider defects found by this check were fixed in /repo "
